@@ -124,4 +124,11 @@ def inputs(tier, seed):
             m = ident + [ident[-1]] * rng.randint(1, 3)
             case = "dup-tail"
         cases.append({"fn": "block", "n": n, "m": m, "case": case, "salt": rng.randint(0, 50)})
-    return cases
+    # the same lists with the repeated occurrences differing from the first one in their witness only (stripped,
+    # or replaced): same transaction id, same merkle root, different wtxid - still a repeated transaction
+    fam = ("cve", "cve-level", "cve-dup-last", "committed-dup", "dup-tail", "repeat")
+    wits = [dict(c, wit=("strip" if i % 2 else "alter"), case=c["case"] + "-wit")
+            for i, c in enumerate(cases) if c["case"] in fam and len(set(c["m"])) < len(c["m"])]
+    if tier == "quick" and len(wits) > 500:
+        wits = rng.sample(wits, 500)
+    return cases + wits
